@@ -937,8 +937,10 @@ class TransportSim:
             done = True
         elif kind == "key_update":
             # RFC 9001 6.1: at most one update outstanding; the application waits for
-            # an acknowledgement of a packet sent under the current keys.
-            if ep.handshake_complete:
+            # an acknowledgement of a packet sent under the current keys. "An endpoint MUST NOT
+            # initiate a key update prior to having confirmed the handshake": the public API has no
+            # event for confirmation, so the script reads the connection's flag to respect the RFC.
+            if ep.handshake_complete and getattr(ep.conn, "_handshake_confirmed", False):
                 if app.key_update_gate is None:
                     app.ping_uid += 1
                     app.key_update_gate = ("wait", app.ping_uid)
